@@ -459,6 +459,10 @@ func areEqualColumns(query, pattern sqlparser.Columns) bool {
 	return true
 }
 func areEqualInsertRows(query, pattern sqlparser.InsertRows) bool {
+	if query == nil || pattern == nil {
+		// INSERT ... DEFAULT VALUES has no rows
+		return query == nil && pattern == nil
+	}
 	switch pattern.(type) {
 	case *sqlparser.Select:
 		querySelect, ok := query.(*sqlparser.Select)
